@@ -7,6 +7,9 @@ CHECKS = {
  "C01": ("E1-history-bfs", "explicit-state BFS over operation histories of 21 real store types against a reference quad set, canonical key = content + term-index order; full product of shipped matcher kinds per state",
          "Every reachable store state (content and hidden term-index order) up to the depth bound is visited for each shipped implementation incl. a 3-bit index width that makes index-full reachable; every mutation flag/count is compared with the mathematical set, and in each state contains(), all term enumerators and quads_matching over the product of real matcher kinds (constant, list, Option, slice, kind, Not, closure, datatype, language, quoted-triple; graph-name matchers) are compared with a reference filter. 16-bit exhaustion is explored on a store pre-filled with 65532 terms.",
          "Small-scope hypothesis (10 colliding quads, depth bound); quick tier checks a state-dependent 1/16 slice of the matcher product per state (thorough: 1/4); Vec stores compared as lists.", "DESIGN.md §4 C01"),
+ "C02": ("E4-word-enumerator", "exhaustive pairwise (and triple-wise) comparison of every realisation of a finite abstract term set in every shipped Term implementation against a structural model",
+         "All ordered pairs of realisations across 19 statically typed Term implementations plus parser-internal (Rio) and canonicalisation terms are compared for eq/hash/cmp with a structural model of RDF term identity and with SimpleTerm's order; all triples for transitivity; 13 conversion paths per realisation.",
+         "Finite term set (IRIs, blank nodes, variables, literals over 4 lexical forms x 4 datatypes x 5 tags, natives, quoted triples to depth 2); JSON-LD's internal RdfTerm and IsoTerm are not constructible from outside their crates and are exercised by C12/C07.", "DESIGN.md §4 C02"),
  "C09": ("E3-product-automaton", "product of the DFA determinised from the crate's regex source with the DFA of the RFC 3987 ABNF (all strings), witness replay per product edge; bounded exhaustive string and (base, reference) pair enumeration against RFC 3986 5.2",
          "Language equality of the validator with RFC 3987 is decided for strings of every length by exploring all reachable product states; the model is bound to the code by construction (built from the crate's public regex source at run time) and by replaying a witness per product edge through every validating entry point. Base conversion, Namespace::get and resolution are checked exhaustively over all strings up to a length and all pairs of a generated IRI set.",
          "regex-automata determinisation; ABNF transcription (cross-checked against oxiri); RFC 3986 5.2 reference (validated on the 42 examples of 5.4); bounds of the string/pair enumerations.", "DESIGN.md §4 C09"),
